@@ -600,4 +600,11 @@ theorem normalise_mixed (dfs : List TS) (lb ub : List Int) (h : nonDecreasing ub
     normalise dfs (some lb) (some ub) = .error .value := by
   simp [normalise, h]
 
+/-- the hypotheses under which the property speaks about stitching: as many series as bounds (at least two),
+    bounds in non-decreasing order -/
+structure Stitchable (dfs : List TS) (ub : List Int) : Prop where
+  len : dfs.length = ub.length
+  two : 2 ≤ ub.length
+  inc : nonDecreasing ub = true
+
 end Pyg.Slice
